@@ -169,7 +169,7 @@ impl Property for C11 {
         "C11"
     }
     fn rule(&self) -> &'static str {
-        "proptest histories (<=8 quick / <=14 thorough ops) over two ITS instances with different chain names (three pairs: stellar / stellar-2, and two pairs that differ only in letter case: Stellar / stellar, Stellar-Testnet / stellar-testnet) sharing one gateway: local deployments (3 deployers x 3 salts; metadata plain / multi-byte / decimals 0, 255 / invalid; initial supply -5, 0, 1, 10^30; minter none / third party / deployer / the service itself), canonical registrations (2 Stellar assets, a stand-alone interchain token reporting an id of its own, a token the service deployed itself), approved remote deploy messages with fresh or colliding ids (also ids that equal the canonical id of a not-yet-registered candidate), remote-deployment requests through both entry points for registered and unregistered tokens (whatever they answer, the registry must not change), each possibly repeated. Oracle: ids, salts and token addresses equal the harness's own derivation (own Keccak over own XDR; sha256 of the contract-id preimage); registry (address, manager type) write-once per service, colliding operations fail with the ledger snapshot identical; every deployed token reports id and metadata, is owned by the service, minters = {service} + designated minter, deployer balance = max(supply,0); and an approved inbound transfer to each newly deployed token credits the recipient. non-trivial = a collision attempt, or supply > 0, or a minter present; distinct by Debug hash"
+        "proptest histories (<=8 quick / <=14 thorough ops) over two ITS instances with different chain names (three pairs: stellar / stellar-2, and two pairs that differ only in letter case: Stellar / stellar, Stellar-Testnet / stellar-testnet) sharing one gateway: local deployments (3 deployers x 3 salts; metadata plain / multi-byte / decimals 0, 255 / invalid; initial supply -5, 0, 1, 10^30; minter none / third party / deployer / the service itself), canonical registrations (2 Stellar assets, a stand-alone interchain token reporting an id of its own, a token the service deployed itself), approved remote deploy messages with fresh or colliding ids (also ids that equal the canonical id of a not-yet-registered candidate), remote-deployment requests through both entry points for registered and unregistered tokens (whatever they answer, the registry must not change), each possibly repeated. Oracle: ids, salts and token addresses equal the harness's own derivation (own Keccak over own XDR; sha256 of the contract-id preimage); registry (address, manager type) write-once per service, colliding operations fail with the ledger snapshot identical; every deployed token reports id and metadata, is owned by the service, minters = {service} + designated minter, deployer balance = max(supply,0); and an approved inbound transfer to each newly deployed token credits the recipient. non-trivial = a collision attempt, or supply > 0, or a minter present; distinct by Debug hash Since rounds 12-13: remote deploy messages may designate a minter that is no address (XDR of a string / a number / a truncated address: must be refused), tokens deployed by remote deploy messages get the inbound-transfer probe too, and the table of minters is read again after the probe (serving a transfer changes no role)."
     }
     fn assumptions(&self) -> Vec<&'static str> {
         vec!["whether a token that is not a plain asset contract may be registered as canonical is not decided by the statement (Either; when it succeeds the id must be the function of chain name and token address)", "local deployment with invalid metadata, with negative supply, or naming the service itself as minter is not decided by the statement (Either; effects checked when it succeeds)"]
